@@ -17,16 +17,16 @@ import (
 func init() {
 	register(&Property{
 		ID: "C13",
-		Explanation: "Decided: (R1) the reader's cursor only advances by a count that passed the bounds check or by the positive byte count of a varint, and the buffer is indexed/sliced only at the cursor under such a check; " +
+		Explanation: "Decided: (R1) the reader's cursor only advances by a count that passed the bounds check or by the positive byte count of a varint, and the buffer is indexed/sliced only at the cursor under a check of the same count (fixed-width reads: check(k>=width)) with no cursor movement between that check and the access; " +
 			"(R2) every allocation whose size derives from a wire integer (make, map size hint, reflect.MakeSlice, helper constructors) is dominated by a comparison with a constant cap, the remaining length, or the bounds check; the three documented caps (map entries, version-vector entries, frame length) are constant caps; " +
 			"(R3) panic sites of the closed class list have their guard: registry-typed assertions, reflect preconditions (Elem/IsNil after Kind()==Ptr, Interface only for exported/interfaceable values, Addr after CanAddr, Len/Index/NumField/Field inside their kind's case), nil checks before dereferencing pointer-typed message fields and helper parameters, nil check of the optional Codec, the descriptor's reader/writer only for non-outside descriptors, nil-pointer messages rejected before the writer; " +
-			"(R4) inside the primitive reader no store through the caller's pointer is followed by a read that can fail; (R5) every call-graph cycle inside the codec has an edge that passes a structurally smaller value. " +
+			"(R4) inside the primitive reader no store through the caller's pointer is followed by a read that can fail, and every nested read of the reflective reader targets a temporary (reflect.New / reflect.MakeSlice), never the caller's own elements; (R5) every call-graph cycle inside the codec has an edge that passes a structurally smaller value. " +
 			"NOT decided: time proportionality beyond allocation bounds; cyclic Go values passed to the writer; panics outside the listed construct classes.",
 		Rules: []Rule{
-			{ID: "C13.R1", Min: 12, Desc: "cursor discipline", Fn: c13Cursor},
+			{ID: "C13.R1", Min: 15, Desc: "cursor discipline", Fn: c13Cursor},
 			{ID: "C13.R2", Min: 6, Desc: "bounded allocation", Fn: c13Alloc},
 			{ID: "C13.R3", Min: 40, Desc: "panic sites guarded", Fn: c13Panics},
-			{ID: "C13.R4", Min: 13, Desc: "decode into temporaries", Fn: c13Temporaries},
+			{ID: "C13.R4", Min: 17, Desc: "decode into temporaries", Fn: c13Temporaries},
 			{ID: "C13.R5", Min: 2, Desc: "progress in recursion", Fn: c13Recursion},
 		},
 	})
@@ -156,6 +156,93 @@ func c13Cursor(p *Program, r *Report) {
 		}
 	}
 	r.Check(okCheck, "bounds check rejects counts beyond the remaining buffer", check.Pos(), "check(n) returns true only through an edge asserting that n fits the remaining buffer")
+	// movers: instructions that may move the cursor — stores to pos and calls of functions that (transitively, through
+	// static calls) store to pos.
+	moves := map[*ssa.Function]bool{}
+	for _, a := range p.fieldAccesses(map[*types.Var]bool{pos: true}) {
+		if a.Write && !a.Fresh {
+			moves[a.Fn] = true
+		}
+	}
+	for changed := true; changed; {
+		changed = false
+		for _, fn := range p.Mod {
+			if moves[fn] {
+				continue
+			}
+			for _, b := range fn.Blocks {
+				for _, in := range b.Instrs {
+					if cc := callOf(in); cc != nil && cc.StaticCallee() != nil && moves[cc.StaticCallee()] && !moves[fn] {
+						moves[fn] = true
+						changed = true
+					}
+				}
+			}
+		}
+	}
+	isMover := func(in ssa.Instruction) bool {
+		if st, ok := in.(*ssa.Store); ok {
+			f, _ := fieldAddr(st.Addr)
+			return f == pos
+		}
+		if cc := callOf(in); cc != nil {
+			if cal := cc.StaticCallee(); cal != nil {
+				return moves[cal]
+			}
+			if cc.IsInvoke() {
+				return false
+			}
+			_, isB := cc.Value.(*ssa.Builtin)
+			return !isB // dynamic call: may move the cursor
+		}
+		return false
+	}
+	// checkedAt: node `at` is dominated by the success edge of a check(m) call where m covers the count (the same value as
+	// n, or constants with m >= max(n const, min)), and no other cursor movement lies between that check and `at`.
+	checkedAt := func(g *IG, at int, n ssa.Value, min int64) bool {
+		for i, in := range g.Nodes {
+			cc, ok := in.(*ssa.Call)
+			if !ok || cc.Call.StaticCallee() != check || len(cc.Call.Args) != 2 {
+				continue
+			}
+			m := cc.Call.Args[1]
+			covers := false
+			if n != nil && sameValue(m, n) {
+				covers = true
+			}
+			if mc, isC := constInt(m); isC {
+				if n != nil {
+					if nc, isNC := constInt(n); isNC && mc >= nc {
+						covers = true
+					}
+				} else if mc >= min {
+					covers = true
+				}
+			}
+			if !covers {
+				continue
+			}
+			tr, _ := callEdges(g, func(c2 *ssa.Call) bool { return c2 == cc })
+			if len(tr) == 0 || !g.DominatedByEdges(at, tr) {
+				continue
+			}
+			fresh := true
+			after := g.ReachAfter(i, nil, nil)
+			for w, win := range g.Nodes {
+				if w == at || w == i || !after[w] || !isMover(win) {
+					continue
+				}
+				if g.ReachAfter(w, map[int]bool{i: true}, nil)[at] {
+					fresh = false
+					break
+				}
+			}
+			if fresh {
+				return true
+			}
+		}
+		return false
+	}
 	// (b) every store to pos
 	for _, a := range p.fieldAccesses(map[*types.Var]bool{pos: true}) {
 		if !a.Write || a.Fresh {
@@ -174,19 +261,18 @@ func c13Cursor(p *Program, r *Report) {
 		if bo, isB := st.Val.(*ssa.BinOp); isB && bo.Op == token.ADD {
 			if f, _ := fieldLoad(bo.X); f == pos {
 				n := bo.Y
-				chk, _ := callEdges(g, func(cc *ssa.Call) bool {
-					return cc.Call.StaticCallee() == check && len(cc.Call.Args) == 2 && sameValue(cc.Call.Args[1], n)
-				})
 				posCnt := g.edgesWhere(func(f cmpFact) bool {
 					return strip(f.X) == strip(n) && f.Y == nil && !f.IsNil && ((f.Op == token.GTR && f.C >= 0) || (f.Op == token.GEQ && f.C >= 1))
 				})
-				ok := (len(chk) > 0 && g.DominatedByEdges(a.Node, chk)) || (len(posCnt) > 0 && g.DominatedByEdges(a.Node, posCnt) && anyContains(p.origins(n), "binary."))
-				r.Check(ok, construct, st.Pos(), "pos += n is dominated by the success edge of check(n) with the same n, or n is the positive byte count returned by binary.(U)varint")
+				ok := checkedAt(g, a.Node, n, 0) || (len(posCnt) > 0 && g.DominatedByEdges(a.Node, posCnt) && anyContains(p.origins(n), "binary."))
+				r.Check(ok, construct, st.Pos(), "pos += n is dominated by the success edge of check(m), m the same value as n (or constants m >= n), with no other cursor movement between that check and the update; or n is the positive byte count returned by binary.(U)varint")
 				continue
 			}
 		}
 		if _, isParam := strip(st.Val).(*ssa.Parameter); isParam {
-			lo := g.edgesWhere(func(f cmpFact) bool { return strip(f.X) == strip(st.Val) && f.Y == nil && f.Op == token.GEQ && f.C == 0 })
+			lo := g.edgesWhere(func(f cmpFact) bool {
+				return strip(f.X) == strip(st.Val) && f.Y == nil && f.Op == token.GEQ && f.C == 0
+			})
 			hi := g.edgesWhere(func(f cmpFact) bool { return strip(f.X) == strip(st.Val) && f.Y != nil && f.Op == token.LEQ })
 			r.Check(len(lo) > 0 && len(hi) > 0 && g.DominatedByEdges(a.Node, lo) && g.DominatedByEdges(a.Node, hi), construct, st.Pos(), "an absolute cursor position is stored only inside the range guard 0 <= pos <= len(buf)")
 			continue
@@ -199,11 +285,10 @@ func c13Cursor(p *Program, r *Report) {
 			continue
 		}
 		g := p.ig(a.Fn)
-		anyCheck, _ := callEdges(g, func(cc *ssa.Call) bool { return cc.Call.StaticCallee() == check })
 		switch x := a.In.(type) {
 		case *ssa.IndexAddr:
 			f, _ := fieldLoad(x.Index)
-			r.Check(f == pos && len(anyCheck) > 0 && g.DominatedByEdges(a.Node, anyCheck), "buf[pos] in "+fnName(a.Fn), x.Pos(), "the buffer is indexed at the cursor under a successful bounds check")
+			r.Check(f == pos && checkedAt(g, a.Node, nil, 1), "buf[pos] in "+fnName(a.Fn), x.Pos(), "the buffer is indexed at the cursor under a successful check(k>=1) with no cursor movement in between")
 		case *ssa.Slice:
 			lowPos := false
 			if x.Low != nil {
@@ -215,10 +300,37 @@ func c13Cursor(p *Program, r *Report) {
 				continue
 			}
 			if x.High == nil {
-				r.Check(true, "buf[pos:] in "+fnName(a.Fn), x.Pos(), "open-ended slice at the cursor (pos <= len(buf) is an invariant of all cursor updates)")
+				// open-ended slice at the cursor: pos <= len(buf) is an invariant of all cursor updates. What consumes it decides:
+				// a fixed-width ByteOrder read needs check(width); varint decoders and plain hand-outs tolerate short input.
+				width := int64(0)
+				for _, ref := range *x.Referrers() {
+					if cc := callOf(ref); cc != nil && cc.IsInvoke() && namedOf(cc.Value.Type()) != nil && typeIs(cc.Value.Type(), "encoding/binary", "ByteOrder") {
+						switch cc.Method.Name() {
+						case "Uint16":
+							width = max(width, 2)
+						case "Uint32":
+							width = max(width, 4)
+						case "Uint64":
+							width = max(width, 8)
+						}
+					}
+				}
+				if width == 0 {
+					r.Check(true, "buf[pos:] in "+fnName(a.Fn), x.Pos(), "open-ended slice at the cursor handed to a consumer that tolerates short input (varint decoder / caller)")
+				} else {
+					r.Check(checkedAt(g, a.Node, nil, width), "buf[pos:] in "+fnName(a.Fn), x.Pos(), fmt.Sprintf("fixed-width read of %d bytes at the cursor under a successful check(k>=%d) with no cursor movement in between", width, width))
+				}
 				continue
 			}
-			r.Check(len(anyCheck) > 0 && g.DominatedByEdges(a.Node, anyCheck), "buf[pos:pos+n] in "+fnName(a.Fn), x.Pos(), "bounded slice at the cursor under a successful bounds check")
+			var n ssa.Value
+			if bo, isB := x.High.(*ssa.BinOp); isB && bo.Op == token.ADD {
+				if f, _ := fieldLoad(bo.X); f == pos {
+					n = bo.Y
+				} else if f, _ := fieldLoad(bo.Y); f == pos {
+					n = bo.X
+				}
+			}
+			r.Check(n != nil && checkedAt(g, a.Node, n, 0), "buf[pos:pos+n] in "+fnName(a.Fn), x.Pos(), "bounded slice at the cursor under a successful check(n) of the same n with no cursor movement in between")
 		}
 	}
 }
@@ -673,7 +785,9 @@ func c13Panics(p *Program, r *Report) {
 				}
 				// descriptor's reader/writer only for non-outside descriptors
 				if cal := x.Call.StaticCallee(); cal != nil && (cal.Name() == "SerializeRemotingMessage" || cal.Name() == "DeserializeRemotingMessage") {
-					_, notOut := callEdges(g, func(c *ssa.Call) bool { return c.Call.StaticCallee() != nil && c.Call.StaticCallee().Name() == "IsOutside" })
+					_, notOut := callEdges(g, func(c *ssa.Call) bool {
+						return c.Call.StaticCallee() != nil && c.Call.StaticCallee().Name() == "IsOutside"
+					})
 					r.Check(len(notOut) > 0 && g.DominatedByEdges(i, notOut), cal.Name()+" called in "+fnName(fn), x.Pos(), "the descriptor's own reader/writer is used only on the !IsOutside() edge (the outside descriptor's placeholders are never invoked)")
 				}
 			}
@@ -924,6 +1038,32 @@ func c13Temporaries(p *Program, r *Report) {
 	}
 	if n == 0 {
 		r.Unresolved("no assignment of the caller's value in readReflect")
+	}
+	// every element/field decode inside readReflect targets a temporary: the pointer handed to a read derives on every
+	// chain from reflect.New / reflect.MakeSlice, never from the caller's object (reflect.ValueOf(param)...)
+	m := 0
+	for _, in := range g.Nodes {
+		cc, ok := in.(*ssa.Call)
+		if !ok || !isReaderCall(in) {
+			continue
+		}
+		for _, a := range cc.Call.Args[1:] {
+			if !types.IsInterface(a.Type()) {
+				continue
+			}
+			m++
+			o := p.origins(a)
+			okT := len(o) > 0
+			for _, ch := range o {
+				if !(strings.Contains(ch, "reflect.New") || strings.Contains(ch, "reflect.MakeSlice")) {
+					okT = false
+				}
+			}
+			r.Check(okT, fmt.Sprintf("readReflect decodes into a temporary (nested read #%d)", m), cc.Pos(), "the destination of the nested read derives only from reflect.New / reflect.MakeSlice: a failure part-way cannot have overwritten the caller's elements")
+		}
+	}
+	if m == 0 {
+		r.Unresolved("no nested reads in readReflect")
 	}
 }
 
